@@ -621,14 +621,15 @@ func (vfs *OrefaFS) OpenFile(name string, flag int, perm fs.FileMode) (avfs.File
 
 		child = vfs.createFile(parent, absPath, fileName, perm)
 	} else {
+		if om&avfs.OpenCreateExcl != 0 {
+			return (*OrefaFile)(nil), &fs.PathError{Op: op, Path: name, Err: vfs.err.FileExists}
+		}
+
 		if child.mode.IsDir() {
 			if om&avfs.OpenWrite != 0 {
 				return (*OrefaFile)(nil), &fs.PathError{Op: op, Path: name, Err: vfs.err.IsADirectory}
 			}
 		} else {
-			if om&avfs.OpenCreateExcl != 0 {
-				return (*OrefaFile)(nil), &fs.PathError{Op: op, Path: name, Err: vfs.err.FileExists}
-			}
 
 			if om&avfs.OpenTruncate != 0 {
 				avfs.VerifBeforeLock(&child.mu, true)
